@@ -9,6 +9,10 @@ CHECKS = {
    text="differential runtime monitor: the repository's stream readers are run on ~10^6 (quick) / ~10^7 (thorough) seeded record streams x chunk partitions and compared with an independent reference decoder; short streams get every 2-chunk (tiny ones every 3-chunk) partition",
    note="sampled input space (exhaustive only where stated); trusts the 30-line reference decoder in harness/src/c20.rs",
    technique="runtime differential monitoring against a reference decoder (seeded + exhaustive small partitions); Miri lane in thorough"),
+ "C01": dict(level="exploration", design="DESIGN.md 3/C01",
+   text="differential restart monitor on a complete in-process node: seeded sequences over all ClientRequest kinds through raft.client_write, compactions placed between writes (awaited) or running concurrently (raft core's own policy), SIGKILL at quiescent points behind a recovery barrier, restart from the same directory; dumps through the public actor queries (config GET/history/listing, namespaces, users table, MCP, persistent instances) must be equal and every raft sequence must continue at the expected id; interrupted-compaction scenario with a partial snapshot file under the next id",
+   note="quiescent stop points only; instance timestamps/health and TTL caches excluded; differential oracle (no behavioural model)",
+   technique="runtime differential monitoring (state dump before stop vs after restart) over seeded histories and restart/compaction placements"),
  "C02": dict(level="exploration", design="DESIGN.md 3/C02",
    text="history + executable model: seeded histories of append / batch / delete-from / compaction pointer / reopen (new process) run on the real FileStore actor chain; a reference vector updated by acknowledged operations is compared with get_log_entries / get_initial_state after every step and every reopen; includes roll-over histories (2.6e5 records) and arithmetic record sizes",
    note="quiescent stop points only (crash points are C04); entries at or below a submitted compaction pointer may be absent; trusts the python model in lib/storerig.py",
